@@ -39,8 +39,8 @@ def run_history(h):
             if op == "enter_cb":
                 at = set(Callback.active)
                 cm = objs[o]
-                if any(s[0] is cm for s in stack):
-                    continue  # re-entering the same Callback object overwrites its _cm: not a nesting of contexts
+                # the same object may be entered again while it is open (the statement quantifies over "the same or
+                # different callback objects"): the inner exit must still not deactivate what the outer entry activated
                 cm.__enter__()
                 stack.append((cm, at, {objs[o]._callback}, set(at)))
             elif op == "enter_add":
